@@ -116,8 +116,11 @@ void async_program(const vf::opts &o, vf::report &R, uint64_t pn, vf::rng &r, co
     int premoves = r.chance(1, 3) ? 1 + (int)r.below(2) : 0;
     auto MK = [&]() { return c4_moved<T>(c4_body<T>(X, 0, tracked(1)), premoves); };
     bool suspends = X.completion >= AC_SUSPEND_VALUE;
+    // thread-pool start on a pool that was stopped before: the coroutine is never started - it must not run, the future reports a broken
+    // promise and the frame with its arguments is destroyed exactly once (same contract as a coroutine object that is never started)
+    bool stopped_pool = (mode == AM_POOL_RUN || mode == AM_POOL_RUN_LVALUE) && r.chance(1, 4);
     if (mode == AM_FUTURE_FN && false) X.depth = 1;
-    std::string desc = std::string(ftype_name<T>()) + " / " + am_name(mode) + " / " + ac_name(X.completion) + " / depth " + std::to_string(X.depth) +
+    std::string desc = std::string(ftype_name<T>()) + " / " + am_name(mode) + (stopped_pool ? " [pool already stopped]" : "") + " / " + ac_name(X.completion) + " / depth " + std::to_string(X.depth) +
                        (premoves ? " / object moved " + std::to_string(premoves) + "x" : "") + (throws ? " throw@" + std::to_string(X.throw_level) : "") + (X.bomb_level >= 0 ? " unconstructible-result@" + std::to_string(X.bomb_level) : "") + (suspends ? (other_thread ? " / finished by another thread" : " / finished by the same thread") : "");
     vf::set_crash_ctx(R.prop.c_str(), "async_programs", o.seed, pn, desc.c_str());
     long live0 = tracked::live.load(), bad0 = tracked::bad.load();
@@ -178,7 +181,9 @@ void async_program(const vf::opts &o, vf::report &R, uint64_t pn, vf::rng &r, co
         }
         case AM_FUTURE_CTOR: fut = std::unique_ptr<cocls::future<T>>(new cocls::future<T>(MK())); open_later(); break;
         case AM_FUTURE_FN: fut = std::unique_ptr<cocls::future<T>>(new cocls::future<T>(c4_future_fn<T>(X, tracked(1)))); open_later(); break;
-        case AM_POOL_RUN: fut = std::unique_ptr<cocls::future<T>>(new cocls::future<T>(pool.run(MK()))); open_later(); break;
+        case AM_POOL_RUN:
+            if (stopped_pool) { cocls::thread_pool dead(1); dead.stop(); started = false; fut = std::unique_ptr<cocls::future<T>>(new cocls::future<T>(dead.run(MK()))); break; }
+            fut = std::unique_ptr<cocls::future<T>>(new cocls::future<T>(pool.run(MK()))); open_later(); break;
         case AM_FUTURE_CTOR_LVALUE: { // the named coroutine object stays in scope after the future took the coroutine over
             cocls::async<T> a = MK();
             fut = std::unique_ptr<cocls::future<T>>(new cocls::future<T>(a));
@@ -187,6 +192,7 @@ void async_program(const vf::opts &o, vf::report &R, uint64_t pn, vf::rng &r, co
         }
         case AM_POOL_RUN_LVALUE: {
             cocls::async<T> a = MK();
+            if (stopped_pool) { cocls::thread_pool dead(1); dead.stop(); started = false; fut = std::unique_ptr<cocls::future<T>>(new cocls::future<T>(dead.run(a))); break; }
             fut = std::unique_ptr<cocls::future<T>>(new cocls::future<T>(pool.run(a)));
             open_later();
             break;
